@@ -450,7 +450,7 @@ def fresh_word(rng, plan, taken, lo=3, hi=9):
 
 
 def rand_pron(rng, phones, n, avoid_one_letter):
-    multi = [p for p in phones if len(p) > 1 and not p.startswith("+")]
+    multi = [p for p in phones if len(p) > 1 and not p.startswith("+") and p != "SIL"]
     real = [p for p in phones if not p.startswith("+") and p != "SIL"]
     while True:
         t = [rng.choice(real) for _ in range(n)]
